@@ -151,6 +151,26 @@ CLAIMS["C10"] = (
     "documentation in tsgEnumerates.hpp and is part of the trusted base.",
     "DESIGN.md 4/C10")
 
+CLAIMS["C05"] = (
+    "R-SYMBOLIC by partial evaluation: the loop-free 1-D basis routines of every instantiated local rule are turned into sympy closed forms (template constants folded, point class concrete, "
+    "x symbolic) and the derivative identities are discharged exactly; plus argument agreement, row-major layout of gradient accumulation and the chain-rule obligations shared with C10",
+    "Static rule discharge: for all 4 local polynomial rules x point classes 0..12 the derivative routines (quadratic, cubic, support map, assembled evalSupport/diffSupport for orders 1-3) "
+    "are the derivatives of the value routines; the high-order paths receive the same arguments; every gradient accumulation in the tree walk uses the documented outputs x dimensions "
+    "layout with matching indices; the chain rule under linear transforms is applied with the Jacobian of the inverse map to the matching dimension for every rule family.",
+    "Orders above 3 (product form with loops), the Lagrange/Newton derivative caches of Global and Sequence grids, the Fourier quotient rule and the wavelet derivative tables are "
+    "algorithmic, not closed forms: not decided. Point classes above 12 repeat the parity pattern of the closed forms and are not enumerated.",
+    "DESIGN.md 4/C05")
+CLAIMS["C11"] = (
+    "R-COVER member-by-member coverage of every copy constructor + guard/argument check of output splitting + type rule for owning members + kernel check of the strip splitter and "
+    "of restrictData + top-level dispatch and clear-on-every-path",
+    "Static rule discharge over the copy constructors of the five grid classes, the base class, the construction-data classes and TasmanianSparseGrid::copyGrid: every non-mutable data "
+    "member is initialised from the same member of the source; output-strided containers are copied whole for the full range and through split(ibegin, iend) of the same member "
+    "otherwise, pending construction data are restricted with the same range and their stored output count follows; owning pointers are deep-copied and nothing else is shared; the "
+    "destination is cleared on every path before members are copied and every family is dispatched to its own constructor with the requested range.",
+    "Observational equality with the source and independence afterwards follow from these structurally and are not decided separately. The restrictData kernel rule and the "
+    "clear-on-every-path form of D5 were written after seeds C11-a/b were known.",
+    "DESIGN.md 4/C11")
+
 PENDING = {}
 
 NOT_APPLICABLE = {}
